@@ -142,8 +142,9 @@ def finish(meta, phase, three_way, patch, demo, src, ident, checks, tier):
                 results[c] = {"exit": rc, "caught": rc == 1 and "VIOLATION property=%s" % c in out, "violation_signatures": sorted(set(sigs))[:12], "wall_s": round(time.time() - t, 1), "tail": out[-600:] if rc not in (0, 1) else ""}
                 meta["what_was_run"].append("./check %s %s  (patch applied to /repo, undone afterwards)" % (c, tier))
         finally:
-            sh("git -C /repo checkout -- .")
+            # index first: a --3way apply stages the change, and `checkout -- .` alone would restore it from there
             sh("git -C /repo reset -q")
+            sh("git -C /repo checkout -- .")
             # evidence files must describe the unchanged tree: they are rewritten by the next regular run
     meta["checks"] = results
     meta["caught_by"] = [c for c, r in results.items() if r["caught"]]
